@@ -162,7 +162,31 @@ func checkC20(p *load.Program, r *kit.Report) {
 					mu = w2.Instr
 					// key = the element's Address
 					if fl, base := kit.LoadedField(w2.Key); fl == nil || fl.Name() != "Address" || kit.Strip(base) != kit.Strip(elem) {
-						bad = "lookup is keyed by something other than the appended peer's address"
+						// or by the very value the peer's Address was initialised with
+						same := false
+						if al, ok := kit.Strip(elem).(*ssa.Alloc); ok {
+							for _, ref := range *al.Referrers() {
+								if fa, ok := ref.(*ssa.FieldAddr); ok {
+									if f2, _ := kit.FieldOfAddr(fa); f2 != nil && f2.Name() == "Address" {
+										n := 0
+										for _, r2 := range *fa.Referrers() {
+											if st, ok := r2.(*ssa.Store); ok && st.Addr == ssa.Value(fa) {
+												n++
+												if kit.Strip(st.Val) == kit.Strip(w2.Key) {
+													same = true
+												}
+											}
+										}
+										if n != 1 {
+											same = false
+										}
+									}
+								}
+							}
+						}
+						if !same {
+							bad = "lookup is keyed by something other than the appended peer's address"
+						}
 					}
 				}
 			}
@@ -360,6 +384,25 @@ func checkC20(p *load.Program, r *kit.Report) {
 			header, body := loopBodyEntry(f, keep)
 			if header != nil && body != nil {
 				block := append(edgesOf(lo, false), edgesOf(hi, false)...)
+				// a list entry is never nil (every append stores the address of a fresh Peer —
+				// PAIRED-UPDATE): a defensive `peer == nil` test on the current element cannot fire
+				for _, g := range kit.FindGuards(f, func(c ssa.Value) (bool, bool) {
+					b, ok := c.(*ssa.BinOp)
+					if !ok || (b.Op != token.EQL && b.Op != token.NEQ) || !kit.IsNilConst(b.Y) {
+						return false, false
+					}
+					u, ok := kit.Strip(b.X).(*ssa.UnOp)
+					if !ok || u.Op != token.MUL {
+						return false, false
+					}
+					ia, ok := u.X.(*ssa.IndexAddr)
+					if !ok || !loadOfField(kit.Strip(ia.X), listF) {
+						return false, false
+					}
+					return true, b.Op == token.EQL
+				}) {
+					block = append(block, g.PassEdge())
+				}
 				rr := kit.Reach(f, []kit.Pt{{B: body, I: 0}}, kit.Opts{BlockEdge: kit.EdgeSet(block...), StopAt: kit.InstrSet(keep)})
 				if rr.Has(header.Instrs[0]) {
 					bad = "a peer inside the requested range can be left out"
